@@ -85,6 +85,12 @@ func ValidateAttestation(ctx context.Context, subnet uint64, att *phase0.Attesta
 	} else if !inSubtree {
 		return nil, GossipValidatorResult{REJECT, errors.New("block not in subtree of target")}
 	}
+	// Being an ancestor is not enough: the target must be the last block at or before the start of the target epoch.
+	if checkpointRoot, err := CheckpointBlockRoot(ctx, spec, blockRef, att.Data.BeaconBlockRoot, targetSlot); err != nil {
+		return nil, GossipValidatorResult{IGNORE, fmt.Errorf("cannot determine the checkpoint block of the vote: %w", err)}
+	} else if checkpointRoot != att.Data.Target.Root {
+		return nil, GossipValidatorResult{REJECT, fmt.Errorf("target %s is not the checkpoint block %s of the vote", att.Data.Target.Root, checkpointRoot)}
+	}
 
 	// [IGNORE] The current finalized_checkpoint is an ancestor of the block defined
 	// by attestation.data.beacon_block_root --
